@@ -390,10 +390,13 @@ func runC20(c *Ctx) {
 						// one whole-token write is part of the codec: a special token (type CONTROL) is matched by
 						// Encode as raw text, so Decode writes its value as it stands (judged by C20-R12)
 						special := false
-						if len(x.Args) == 1 && len(core.CallsTo(info, x.Args[0], false, "model.Vocabulary.Decode")) == 1 {
+						if len(x.Args) == 1 && decodedValue(info, side.f.Body, x.Args[0]) {
 							gs := c.G(side.f)
 							for _, a := range gs.AtomsAt(gs.Locate(x)) {
 								if be, isB := ast.Unparen(a.Expr).(*ast.BinaryExpr); isB && mentionsIdentNamed(be, "TOKEN_TYPE_CONTROL") && ((be.Op == token.EQL && a.Val) || (be.Op == token.NEQ && !a.Val)) {
+									special = true
+								}
+								if a.Val && specialMembership(info, a.Expr) {
 									special = true
 								}
 							}
